@@ -89,11 +89,15 @@ type vFARSpec struct {
 	peer    [4]byte
 	smFlags uint8 // update only; 0 = absent
 	noFwd   bool
+	noOHC   bool // downlink forwarding parameters without Outer Header Creation (UE goes idle)
 }
 
 func (f vFARSpec) fwdIEs() []*ie.IE {
 	if f.uplink {
 		return []*ie.IE{ie.NewDestinationInterface(ie.DstInterfaceCore)}
+	}
+	if f.noOHC {
+		return []*ie.IE{ie.NewDestinationInterface(ie.DstInterfaceAccess)}
 	}
 	return []*ie.IE{
 		ie.NewDestinationInterface(ie.DstInterfaceAccess),
